@@ -91,18 +91,29 @@ Definition check_c10s (c : c10s_case) : list string :=
 (* ---- end-to-end stage: Context.BuildLayers with and without a layering block ------------
    [e_single]: the one layer of the build without `layering`; [e_layers]: the
    layers of the build of the same configuration with budget [e_budget]; both
-   untarred by the harness.  etc/apko.json embeds the configuration, layering
-   request included, so its content and size are not compared. *)
-Record c10e_case := { e_budget : Z; e_single : list entry; e_layers : list (list entry) }.
+   untarred by the harness.  [e_gs]: the groups the real grouping gives for the
+   installed packages (read back from the image's own database); [e_own]: the
+   owner of every non-directory path, taken from what the installed PACKAGES
+   ship (synthrepo's file lists) — not from tarfs's Package() side channel, so a
+   file that loses its owner inside apko (e.g. when a later build step rewrites
+   /etc/passwd) is still expected in its package's layer.
+   etc/apko.json embeds the configuration, layering request included, so its
+   content and size are not compared.  Judged by the verified validator
+   [layers_tags] (flatten = single layer; every non-directory entry exactly once,
+   unchanged, in the layer of its owner's group or the top layer; per-layer
+   parent directories; one layer per group plus the top layer) and the budget. *)
+Record c10e_case := { e_budget : Z; e_gs : list (list string); e_own : list (path * string);
+                      e_single : list entry; e_layers : list (list entry) }.
 
-Definition apko_json : path := ["etc"; "apko.json"].
-Definition blank_cfg (e : entry) : entry :=
-  if path_eqb (e_path e) apko_json then
+Definition blank_content (p : path) (e : entry) : entry :=
+  if path_eqb (e_path e) p then
     {| e_path := e_path e; e_kind := e_kind e; e_mode := e_mode e; e_uid := e_uid e; e_gid := e_gid e;
        e_uname := e_uname e; e_gname := e_gname e; e_link := e_link e; e_devmaj := e_devmaj e;
        e_devmin := e_devmin e; e_xattrs := e_xattrs e; e_mtime := e_mtime e; e_mnsec := e_mnsec e;
        e_cid := 0; e_size := 0 |}
   else e.
+Definition apko_json : path := ["etc"; "apko.json"].
+Definition apk_repositories : path := ["etc"; "apk"; "repositories"].
 
 (* diagnosis only: the paths at which the last entry written by the layers is not the single layer's entry *)
 Definition last_entry (L : list entry) (p : path) : option entry :=
@@ -115,21 +126,15 @@ Definition diff_paths (single flat : list entry) : list path :=
   flat_map (fun o => match last_entry single (e_path o) with Some _ => [] | None => [e_path o] end) flat.
 
 Definition check_c10e (c : c10e_case) : list string :=
-  let single := map blank_cfg (e_single c) in
-  let layers := map (map blank_cfg) (e_layers c) in
-  (match extract (List.concat layers), extract single with
-   | Ok a, Ok b =>
-       if forest_eqb (canon_forest a) (canon_forest b) then []
-       else match diff_paths single (List.concat layers) with
-            | [p] => if path_eqb p ["etc"; "apk"; "repositories"]
-                     then ["viol:flatten-differs/etc-apk-repositories"]
-                     else ["viol:flatten-differs-from-single-layer"]
-            | _ => ["viol:flatten-differs-from-single-layer"]
-            end
-   | Ok _, _ => ["viol:single-layer-not-extractable"]
-   | _, _ => ["viol:layers-not-extractable-in-order"]
-   end) ++
-  tag_if (negb (forallb (wellformed_from []) layers)) "viol:layer-parent-dir-missing-or-duplicate-path" ++
+  let single := map (blank_content apko_json) (e_single c) in
+  let layers := map (map (blank_content apko_json)) (e_layers c) in
+  let own := own_find (e_own c) in
+  (* finding C10-F2 has its own tag: the ONLY difference is the content of
+     etc/apk/repositories; everything else is still judged, with that content blanked *)
+  (if list_eqb path_eqb (diff_paths single (List.concat layers)) [apk_repositories]
+   then "viol:flatten-differs/etc-apk-repositories" ::
+        layers_tags (e_gs c) own (map (blank_content apk_repositories) single) (map (map (blank_content apk_repositories)) layers)
+   else layers_tags (e_gs c) own single layers) ++
   (if (e_budget c =? 0)%Z then
      tag_if (Nat.ltb 1 (List.length layers)) "viol:group-count-exceeds-budget/budget-zero" ++
      tag_if (Nat.ltb 2 (List.length layers)) "viol:layer-count-exceeds-budget-plus-top"
